@@ -52,6 +52,9 @@ func twoCalls(cs *fw.Case, routine string, t elemT, fine, coarse string, inputs 
 		A := inputs[k]
 		v, of, om := call(A, k, !inSitu)
 		class := coarse
+		if A.R == 1 && A.C == 1 {
+			class = "1x1"
+		}
 		if inSitu {
 			of += "+InSitu"
 			cs.Cover(fmt.Sprintf("insitu:%s/%s", routine, []string{"first-use", "reused"}[k]))
@@ -71,6 +74,11 @@ func twoCalls(cs *fw.Case, routine string, t elemT, fine, coarse string, inputs 
 			class = "sort-permutation"
 		}
 		cs.Cover("fine-class:" + routine + "/" + fine)
+		if routine == "qrAlgorithm" || routine == "eigensystem" || routine == "svd" || routine == "msqrt" || routine == "msqrtInv" {
+			if v.Skip == "" && A.C > 0 {
+				cs.C.CoverMax("max:sweeps-per-row(x100):"+routine, 100*lastTicks/int64(A.C))
+			}
+		}
 		if report(cs, routine, opts, t, class, A, v) {
 			for kind, r := range v.Ratio {
 				cs.C.CoverMax("max:ratio-permille(held):"+routine+":"+kind, int64(1000*r))
@@ -84,7 +92,7 @@ func twoCalls(cs *fw.Case, routine string, t elemT, fine, coarse string, inputs 
 
 func Run(c *fw.Ctx) {
 	/* cholesky: plain, LDL, LDL+ForcePD */
-	c.Cases("cholesky", c.N(900, 20000), func(cs *fw.Case) {
+	c.Cases("cholesky", c.N(3600, 80000), func(cs *fw.Case) {
 		r := cs.R
 		t := types[cs.Index%2]
 		mode := []string{"plain", "LDL", "LDL+ForcePD"}[(cs.Index/2)%3]
@@ -113,7 +121,7 @@ func Run(c *fw.Ctx) {
 	})
 
 	/* gramSchmidt */
-	c.Cases("gramSchmidt", c.N(400, 8000), func(cs *fw.Case) {
+	c.Cases("gramSchmidt", c.N(1600, 32000), func(cs *fw.Case) {
 		r := cs.R
 		t := types[cs.Index%2]
 		n := 1 + (cs.Index/2)%7
@@ -134,7 +142,7 @@ func Run(c *fw.Ctx) {
 	})
 
 	/* householderBidiagonalization */
-	c.Cases("bidiag", c.N(700, 14000), func(cs *fw.Case) {
+	c.Cases("bidiag", c.N(2800, 56000), func(cs *fw.Case) {
 		r := cs.R
 		t := types[cs.Index%2]
 		cu, cv := (cs.Index/2)%2 == 0, (cs.Index/4)%2 == 0
@@ -155,7 +163,7 @@ func Run(c *fw.Ctx) {
 	})
 
 	/* householderTridiagonalization */
-	c.Cases("tridiag", c.N(400, 8000), func(cs *fw.Case) {
+	c.Cases("tridiag", c.N(1600, 32000), func(cs *fw.Case) {
 		r := cs.R
 		t := types[cs.Index%2]
 		cu := (cs.Index/2)%2 == 0
@@ -175,7 +183,7 @@ func Run(c *fw.Ctx) {
 	})
 
 	/* hessenbergReduction */
-	c.Cases("hessenberg", c.N(500, 10000), func(cs *fw.Case) {
+	c.Cases("hessenberg", c.N(2000, 40000), func(cs *fw.Case) {
 		r := cs.R
 		t := types[cs.Index%2]
 		cu := (cs.Index/2)%2 == 0
@@ -197,7 +205,7 @@ func Run(c *fw.Ctx) {
 	})
 
 	/* qrAlgorithm (Francis / symmetric) */
-	c.Cases("qrAlgorithm", c.N(1400, 30000), func(cs *fw.Case) {
+	c.Cases("qrAlgorithm", c.N(5600, 120000), func(cs *fw.Case) {
 		r := cs.R
 		t := types[cs.Index%2]
 		o := qrOpts{CU: (cs.Index/2)%2 == 0, Sym: (cs.Index/4)%3 == 0}
@@ -220,7 +228,8 @@ func Run(c *fw.Ctx) {
 			}
 		}
 		is := &qrAlgorithm.InSitu{}
-		cs.Sample(map[string]any{"routine": "qrAlgorithm", "type": t.Name, "class": fine, "opts": o.String(), "A": ins[0].A.Rows()})
+		cs.Cover("epsilon:qrAlgorithm/" + epsLabel(o.Eps))
+		cs.Sample(map[string]any{"routine": "qrAlgorithm", "type": t.Name, "class": fine, "opts": o.String(), "epsilon": epsLabel(o.Eps), "A": ins[0].A.Rows()})
 		twoCalls(cs, "qrAlgorithm", t, fine, coarse, []*la.Mat{ins[0].A, ins[1].A}, inSitu, func(A *la.Mat, idx int, fresh bool) (verdict, string, string) {
 			var p *qrAlgorithm.InSitu
 			if !fresh {
@@ -233,7 +242,7 @@ func Run(c *fw.Ctx) {
 	})
 
 	/* eigensystem */
-	c.Cases("eigensystem", c.N(1400, 30000), func(cs *fw.Case) {
+	c.Cases("eigensystem", c.N(5600, 120000), func(cs *fw.Case) {
 		r := cs.R
 		t := types[cs.Index%2]
 		o := eigOpts{Vec: (cs.Index/2)%4 != 0, Sym: (cs.Index/8)%3 == 0}
@@ -256,7 +265,8 @@ func Run(c *fw.Ctx) {
 			}
 		}
 		is := &eigensystem.InSitu{}
-		cs.Sample(map[string]any{"routine": "eigensystem", "type": t.Name, "class": fine, "opts": o.String(), "A": ins[0].A.Rows()})
+		cs.Cover("epsilon:eigensystem/" + epsLabel(o.Eps))
+		cs.Sample(map[string]any{"routine": "eigensystem", "type": t.Name, "class": fine, "opts": o.String(), "epsilon": epsLabel(o.Eps), "A": ins[0].A.Rows()})
 		twoCalls(cs, "eigensystem", t, fine, coarse, []*la.Mat{ins[0].A, ins[1].A}, inSitu, func(A *la.Mat, idx int, fresh bool) (verdict, string, string) {
 			var p *eigensystem.InSitu
 			if !fresh {
@@ -264,18 +274,12 @@ func Run(c *fw.Ctx) {
 			}
 			om := o
 			om.Vec = false
-			v := runEigensystem(t, ins[idx], o, p)
-			of := o.String()
-			if v.Kind == "eigenpairs-misaligned" {
-				// the sort is independent of the deflation tolerance
-				of = map[bool]string{true: "Symmetric", false: "general"}[o.Sym] + "+ComputeEigenvectors"
-			}
-			return v, of, om.String()
+			return runEigensystem(t, ins[idx], o, p), o.String(), om.String()
 		})
 	})
 
 	/* svd */
-	c.Cases("svd", c.N(1000, 20000), func(cs *fw.Case) {
+	c.Cases("svd", c.N(4000, 80000), func(cs *fw.Case) {
 		r := cs.R
 		t := types[cs.Index%2]
 		cu, cv := (cs.Index/2)%2 == 0, (cs.Index/4)%2 == 0
@@ -286,22 +290,20 @@ func Run(c *fw.Ctx) {
 		inSitu := r.Chance(0.3)
 		inputs := []*la.Mat{genTall(fine, m, n, r), genTall(fine, m, n, r)}
 		is := &svd.InSitu{}
-		es := "Epsilon=default"
-		if epsOpt != 0 {
-			es = fmt.Sprintf("Epsilon=%g", epsOpt)
-		}
+		es := epsLabel(epsOpt)
+		cs.Cover("epsilon:svd/" + es)
 		cs.Sample(map[string]any{"routine": "svd", "type": t.Name, "class": fine, "ComputeU": cu, "ComputeV": cv, "epsilon": es, "A": inputs[0].Rows()})
 		twoCalls(cs, "svd", t, fine, coarseTall[fine], inputs, inSitu, func(A *la.Mat, idx int, fresh bool) (verdict, string, string) {
 			var p *svd.InSitu
 			if !fresh {
 				p = is
 			}
-			return runSVD(t, A, cu, cv, epsOpt, p), join(bstr("ComputeU", cu), bstr("ComputeV", cv), es), es
+			return runSVD(t, A, cu, cv, epsOpt, p), join(bstr("ComputeU", cu), bstr("ComputeV", cv)), "any"
 		})
 	})
 
 	/* msqrt, msqrtInv */
-	c.Cases("msqrt", c.N(400, 8000), func(cs *fw.Case) {
+	c.Cases("msqrt", c.N(1600, 32000), func(cs *fw.Case) {
 		r := cs.R
 		t := types[cs.Index%2]
 		inverse := (cs.Index/2)%2 == 1
@@ -313,7 +315,7 @@ func Run(c *fw.Ctx) {
 			routine = "msqrtInv"
 		}
 		cs.Sample(map[string]any{"routine": routine, "type": t.Name, "class": fine, "A": A.Rows()})
-		twoCalls(cs, routine, t, fine, "spd-"+coarseSym[fine], []*la.Mat{A}, false, func(A *la.Mat, idx int, fresh bool) (verdict, string, string) {
+		twoCalls(cs, routine, t, fine, "spd", []*la.Mat{A}, false, func(A *la.Mat, idx int, fresh bool) (verdict, string, string) {
 			return runMsqrt(t, A, inverse), "default", "default"
 		})
 	})
